@@ -308,6 +308,7 @@ Section FSolve.
     if max_iter o <? min_iter o then (s, Raise ValueError) else py_solve_loop d o ps s [].
   Definition py_solve_se (d : mdesc) (o : opts) (start stop : option nat) (s : mstate) : mstate * outcome (list bool) :=
     if max_iter o <? min_iter o then (s, Raise ValueError) else
+    if (List.length (status s) =? 0)%nat then (s, Raise (SolutionError None)) else       (* iter_periods: `span` is empty (FortranEngine.solve has no such test: kept finding) *)
     match sel_positions d (List.length (status s)) start stop with
     | inr e => (s, Raise e)
     | inl ps => py_solve d o ps s
